@@ -6,7 +6,7 @@
    gobEncodeItem is taken for another shape by gobDecodeItem), the type-name dispatch, and the fixpoint
    equation of the decoder (Proofs/GobWireP.v), by induction over the value. *)
 From AP.Model Require Import Prelude Vocab Bytes Layout Pred Dispatch GobTables Gob GobCheck GobNorm GobWhole.
-From AP.Proofs Require Import NlvP ViewsP GobP GobLeafP GobWireP.
+From AP.Proofs Require Import GobCodecP NlvP ViewsP GobP GobLeafP GobWireP.
 From Coq Require Import Lia.
 
 (* ------------------------------------------------------------------ induction over values *)
@@ -85,7 +85,11 @@ End ItemInd.
 (* ------------------------------------------------------------------ the sniffing lemma *)
 Section Sniff.
 Variable E : gob_env.
+Hypothesis Hcodecs : codecs_ok E = true.      (* tryDecodeIRIs / tryDecodeIRI run the generated IRIs.GobDecode / IRI.GobDecode *)
 Variable rec : wire -> outcome item.
+
+Ltac closed_codecs :=
+  rewrite ?(dec_iris_closed0 E Hcodecs), ?(dec_raw E Hcodecs n_iri_dec) by (simpl; tauto).
 
 (* the first attempt that does not pass on a wire of class [c] is one that reads it right *)
 Lemma sniff_run_class (c : wclass) (w : wire) (P : outcome item -> Prop) l :
@@ -121,7 +125,7 @@ Lemma sniff_empty : exists y, sniff_run E rec l WEmpty = Ok y /\ N y = INil.
 Proof.
   apply (sniff_run_class WcEmpty WEmpty (fun r => exists y, r = Ok y /\ N y = INil)); [| |apply sniff_class_ok].
   - intros s k Hk Hp. kind_cases s Hk; try discriminate; simpl; unfold sniff_try; rewrite ?Hfn1; reflexivity.
-  - intros s k Hk Hp Hr. kind_cases s Hk; try discriminate; simpl; unfold sniff_try; rewrite ?Hfn1, ?Hfn2, ?Hfn3;
+  - intros s k Hk Hp Hr. kind_cases s Hk; try discriminate; simpl; unfold sniff_try; rewrite ?Hfn1, ?Hfn2, ?Hfn3; closed_codecs;
       eexists; (split; [reflexivity|]); eexists; split; reflexivity.
 Qed.
 
@@ -129,8 +133,8 @@ Qed.
 Lemma sniff_raw b : sniff_run E rec l (WRaw b) = Ok (IIri false b).
 Proof.
   apply (sniff_run_class WcRaw (WRaw b) (fun r => r = Ok (IIri false b))); [| |apply sniff_class_ok].
-  - intros s k Hk Hp. kind_cases s Hk; try discriminate; simpl; unfold sniff_try; rewrite ?Hfn1, ?Hfn2; reflexivity.
-  - intros s k Hk Hp Hr. kind_cases s Hk; try discriminate; simpl; unfold sniff_try; rewrite ?Hfn1, ?Hfn2, ?Hfn3;
+  - intros s k Hk Hp. kind_cases s Hk; try discriminate; simpl; unfold sniff_try; rewrite ?Hfn1, ?Hfn2; closed_codecs; reflexivity.
+  - intros s k Hk Hp Hr. kind_cases s Hk; try discriminate; simpl; unfold sniff_try; rewrite ?Hfn1, ?Hfn2, ?Hfn3; closed_codecs;
       eexists; split; reflexivity.
 Qed.
 
@@ -148,7 +152,7 @@ Lemma sniff_iris i x ls : dec_iris i = Ok ls -> sniff_run E rec l (WCat (WOpaque
 Proof.
   intros Hl. apply (sniff_run_class WcIris (WCat (WOpaque i) x) (fun r => r = Ok (IIris false (Some ls)))); [| |apply sniff_class_ok].
   - intros s k Hk Hp. kind_cases s Hk; try discriminate; simpl; unfold sniff_try; rewrite ?Hfn1; reflexivity.
-  - intros s k Hk Hp Hr. kind_cases s Hk; try discriminate; simpl; unfold sniff_try; rewrite ?Hfn1, ?Hfn2.
+  - intros s k Hk Hp Hr. kind_cases s Hk; try discriminate; simpl; unfold sniff_try; rewrite ?Hfn1, ?Hfn2; closed_codecs.
     change (dec_iris (WCat (WOpaque i) x)) with (dec_iris i). rewrite Hl. eexists; split; reflexivity.
 Qed.
 
@@ -156,7 +160,7 @@ Qed.
 Lemma sniff_map mm : sniff_run E rec l (WMap mm) = dec_object E rec (B "type") mm.
 Proof.
   apply (sniff_run_class WcMap (WMap mm) (fun r => r = dec_object E rec (B "type") mm)); [| |apply sniff_class_ok].
-  - intros s k Hk Hp. kind_cases s Hk; try discriminate; simpl; unfold sniff_try; rewrite ?Hfn1, ?Hfn2; reflexivity.
+  - intros s k Hk Hp. kind_cases s Hk; try discriminate; simpl; unfold sniff_try; rewrite ?Hfn1, ?Hfn2; closed_codecs; reflexivity.
   - intros s k Hk Hp Hr. kind_cases s Hk; try discriminate. simpl in Hr. apply andb_true_iff in Hr. destruct Hr as [-> Ht].
     apply bytes_eqb_eq in Ht. subst tkey. simpl. rewrite Hfn1. simpl. eexists; split; reflexivity.
 Qed.
@@ -252,11 +256,17 @@ Notation ON := (onorm (ge_layout E) (ge_layout_endpoints E)).
 
 Lemma whole_parts :
   gob_tables_consistent E = true /\ leaves_ok E = true /\ sniff_ok (ge_sniff E) = true /\ type_fields_ok E = true /\
-  ge_ptr_iri E = true /\ ge_endpoints_codec E = true.
+  enc_item_ok E = true /\ ge_endpoints_codec E = true.
 Proof.
-  pose proof Hwhole as H. unfold gob_whole_ok in H. do 5 (apply andb_true_iff in H; destruct H as [H ?]).
+  pose proof Hwhole as H. unfold gob_whole_ok in H. do 7 (apply andb_true_iff in H; destruct H as [H ?]).
   repeat split; assumption.
 Qed.
+
+Lemma whole_codecs : codecs_ok E = true.
+Proof. pose proof Hwhole as H. unfold gob_whole_ok in H. do 3 (apply andb_true_iff in H; destruct H as [H ?]). assumption. Qed.
+
+Lemma whole_enc_item : enc_item_ok E = true.
+Proof. now destruct whole_parts as (_ & _ & _ & _ & H & _). Qed.
 
 Lemma kind_struct_ok k :
   struct_ok wcodec_fits (pair_ok true) (ge_layout E k) (wtable E k) (rtable_method E k) = true /\ item_route_ok E k = true.
@@ -354,14 +364,23 @@ Lemma sniff_here : sniff_ok (ge_sniff E) = true.
 Proof. now destruct whole_parts as (_ & _ & H & _). Qed.
 
 Lemma gdec_empty : exists y, gdec E WEmpty = Ok y /\ N y = INil.
-Proof. rewrite gdec_unfold. apply sniff_empty, sniff_here. Qed.
+Proof. rewrite gdec_unfold. apply sniff_empty; [exact whole_codecs|exact sniff_here]. Qed.
 
 Lemma nil_ok : rec_ok E (gdec E) INil.
-Proof. destruct gdec_empty as [y [Hy Hn]]. exists y. split; [exact Hy|exact Hn]. Qed.
+Proof.
+  destruct gdec_empty as [y [Hy Hn]]. exists y. rewrite (genc_nil E whole_enc_item INil eq_refl). split; [exact Hy|exact Hn].
+Qed.
+
+(* any nil-like item: no bytes, read back as the unset item *)
+Lemma nilish_ok i : is_nil i = true -> N i = INil -> rec_ok E (gdec E) i.
+Proof.
+  intros Hi Hni. destruct gdec_empty as [y [Hy Hn]]. exists y. rewrite (genc_nil E whole_enc_item i Hi).
+  split; [exact Hy|now rewrite Hni].
+Qed.
 
 (* ---- encoding a struct *)
 Lemma genc_obj p k fs : genc E (IObj p k fs) = enc_struct E k (pre_fields E fs).
-Proof. reflexivity. Qed.
+Proof. apply GobCodecP.genc_obj, whole_enc_item. Qed.
 
 Lemma pfs_type_pre fs : pfs_type (pre_fields E fs) = get_str F_Type fs.
 Proof.
@@ -375,7 +394,7 @@ Qed.
 Lemma enc_struct_obj k fs :
   type_selects E k (get_str F_Type fs) = true -> enc_struct E k (pre_fields E fs) = enc_obj E k (pre_fields E fs).
 Proof.
-  intros H. unfold enc_struct. rewrite pfs_type_pre. unfold type_selects in H.
+  intros H. unfold enc_struct, enc_switch. rewrite pfs_type_pre. unfold type_selects in H.
   apply andb_true_iff in H. destruct H as [_ H].
   destruct k; try reflexivity; apply okind_eqb_eq in H; rewrite H; reflexivity.
 Qed.
@@ -427,7 +446,8 @@ Proof.
                    wire_bytes_or_garbage (wenc E c (fget F_Type (pre_fields E fs))) = get_str F_Type fs).
   { intros c Hc Ht. rewrite fget_pre. unfold get_str. destruct (getf F_Type fs) as [v|] eqn:Hg.
     - pose proof (Hshape d v Hd) as Hs. rewrite Hdf, Ht in Hs. specialize (Hs Hg).
-      destruct v; try discriminate. destruct Hc as [-> | [-> | ->]]; simpl; apply wbg_wraw.
+      destruct v; try discriminate.
+      destruct Hc as [-> | [-> | ->]]; cbn [wenc option_map pre_fval]; rewrite (wenc0_closed E whole_codecs whole_enc_item); simpl; apply wbg_wraw.
     - destruct Hc as [-> | [-> | ->]]; reflexivity. }
   destruct (aget (B "type") mm) as [w|] eqn:Ha.
   - destruct (fold_binding (wenc E) (pre_fields E fs) W ([], false) _ _ Ha) as [Hb|Hb]; [discriminate|].
@@ -449,21 +469,25 @@ Qed.
 End Obj.
 
 (* ---- decoding a struct *)
+Lemma getf_nlv_base f (nl : list fid) :
+  getf f (map (fun g => (g, FNlv (Some []))) nl) = None \/ getf f (map (fun g => (g, FNlv (Some []))) nl) = Some (FNlv (Some [])).
+Proof.
+  induction nl as [|g r IH]; simpl; [now left|]. destruct (fid_beq f g); [now right|exact IH].
+Qed.
+
+(* whatever the generated constructor table says: a fresh value holds nothing but empty language lists and a type name *)
 Lemma getf_fresh f ty :
   getf f (fresh_fields E ty) = None \/ getf f (fresh_fields E ty) = Some (FNlv (Some [])) \/
-  (f = F_Type /\ ty <> [] /\ getf f (fresh_fields E ty) = Some (FStr ty)).
+  (f = F_Type /\ exists t, t <> [] /\ getf f (fresh_fields E ty) = Some (FStr t)).
 Proof.
-  assert (Hset : forall l, (getf f l = None \/ getf f l = Some (FNlv (Some []))) ->
-            getf f (setf F_Type (FStr ty) l) = None \/ getf f (setf F_Type (FStr ty) l) = Some (FNlv (Some [])) \/
-            (f = F_Type /\ ty <> [] /\ getf f (setf F_Type (FStr ty) l) = Some (FStr ty))).
-  { intros l Hl. destruct (fid_beq F_Type f) eqn:Hf.
-    - apply fid_beq_eq in Hf. subst f. rewrite getf_setf_same. destruct ty as [|b r]; simpl; [now left|].
-      right. right. repeat split; congruence.
-    - apply fid_beq_false in Hf. rewrite (getf_setf_other F_Type f _ _ Hf). tauto. }
-  unfold fresh_fields. destruct (sw_mentions _ _); [|now left].
-  destruct (bytes_eqb _ _); apply Hset.
-  - simpl. destruct (fid_beq f F_Name); [now right|]. destruct (fid_beq f F_Content); [now right|now left].
-  - now left.
+  unfold fresh_fields, run_presets.
+  destruct (fold_left (preset_step) _ _) as [[typ tset] nl].
+  pose proof (getf_nlv_base f nl) as Hb.
+  destruct tset as [t|]; [|tauto].
+  destruct (fid_beq F_Type f) eqn:Hf.
+  - apply fid_beq_eq in Hf. subst f. rewrite getf_setf_same. destruct t as [|b r]; simpl; [now left|].
+    right. right. split; [reflexivity|]. exists (b :: r). split; [discriminate|reflexivity].
+  - apply fid_beq_false in Hf. rewrite (getf_setf_other F_Type f _ _ Hf). tauto.
 Qed.
 
 Lemma route_fn k ty :
@@ -528,24 +552,26 @@ Proof.
             cur_ok (getf (fd_fid d) init) \/
             (getf (fd_fid d) init = getf (fd_fid d) fs /\
              forall key cn gf g fl pos, In (GW (fd_fid d) key cn gf g fl pos) (wtable E k) -> raw_codec cn = true)).
-  { intros d Hd. destruct (getf_fresh (fd_fid d) ty) as [H|[H|(Hf & Hne & H)]].
+  { intros d Hd. destruct (getf_fresh (fd_fid d) ty) as [H|[H|(Hf & t & Hne & H)]].
     - left. left. exact H.
     - left. right. exact H.
     - right. split.
-      + fold init in H. rewrite H, Hf. unfold ty, get_str in *. destruct (getf F_Type fs) as [v|]; [|congruence].
+      + fold init in H. rewrite H, Hf.
+        assert (Ht : t = ty). { rewrite <- Hfresh. unfold get_str. rewrite <- Hf, H. reflexivity. }
+        subst t. unfold ty, get_str in *. destruct (getf F_Type fs) as [v|]; [|congruence].
         destruct v; congruence.
       + intros key cn gf g fl pos Hin.
         destruct (field_parts _ _ _ _ _ Hsok d Hd) as (Hwok & _). rewrite forallb_forall in Hwok. specialize (Hwok _ Hin).
         simpl in Hwok. rewrite fid_beq_refl, Hf in Hwok. simpl in Hwok.
         apply andb_true_iff in Hwok. destruct Hwok as [_ H2]. apply andb_true_iff in H2. now destruct H2. }
   destruct (struct_rt E (gdec E) (wenc E) (rdec E (gdec E)) wcodec_fits (pair_ok true)
-              (codec_pair_sound E Hleaves Hep (gdec E) nil_ok) (rdec_indep E (gdec E))
+              (codec_pair_sound E Hleaves Hep whole_codecs whole_enc_item (gdec E) nil_ok) (rdec_indep E (gdec E))
               _ _ _ Hsok fs nil_ok init Hshape Hrec Hstr Hinit) as [out [Hout Hf]].
   unfold rec_ok. rewrite genc_obj, (enc_struct_obj k fs Hts0). unfold enc_obj, enc_map_gen.
   pose proof (type_on_wire k fs Hshape) as Htw.
   destruct (gmap_gen (wenc E) (wtable E k) (pre_fields E fs)) as [mm has] eqn:Hg.
   destruct has.
-  - rewrite gdec_unfold. unfold dec_step. rewrite (sniff_map E (gdec E) _ sniff_here).
+  - rewrite gdec_unfold. unfold dec_step. rewrite (sniff_map E whole_codecs (gdec E) _ sniff_here).
     unfold dec_object. simpl in Htw. rewrite Htw. fold ty. rewrite Htyper. fold init. rewrite Hfresh, Hdec, kind_beq_refl.
     rewrite (route_fn k ty Hroute Hment Hdec). change (rflatten E flatten_fuel (dec_fn_method E k)) with (rtable_method E k).
     simpl in Hout. unfold gunmap. rewrite Hout. simpl.
@@ -560,12 +586,7 @@ Qed.
 
 (* ---- lists and IRI lists *)
 Lemma genc_items p l : genc E (IItems p (Some l)) = WList (map (genc E) l).
-Proof.
-  assert (H : genc E (IItems p (Some l)) =
-    WList ((fix go (l : list item) : list wire := match l with [] => [] | x :: r => genc E x :: go r end) l))
-    by (destruct p; reflexivity).
-  rewrite H. reflexivity.
-Qed.
+Proof. apply GobCodecP.genc_items, whole_enc_item. Qed.
 
 Lemma norm_items p l :
   N (IItems p (Some l)) = match l with [] => INil | _ => IItems false (Some (map N l)) end.
@@ -588,38 +609,41 @@ Proof.
   assert (Hcat : forall p' l0, genc E (IIris p' l0) = WCat (WOpaque (wenc_iris (olist l0))) (WList (map wraw (olist l0))) ->
                  exists i', gdec E (genc E (IIris p' l0)) = Ok i' /\ N i' = N (IIris p' l0)).
   { intros p' l0 ->. rewrite gdec_unfold. unfold dec_step.
-    rewrite (sniff_iris E (gdec E) _ sniff_here _ _ _ (dec_iris_wenc _)).
+    rewrite (sniff_iris E whole_codecs (gdec E) _ sniff_here _ _ _ (dec_iris_wenc _)).
     eexists. split; [reflexivity|]. destruct l0 as [[|a r]|]; reflexivity. }
-  destruct p; [apply Hcat; reflexivity|]. destruct l as [l|]; [apply Hcat; reflexivity|].
-  destruct gdec_empty as [y [Hy Hn]]. exists y. split; [exact Hy|exact Hn].
+  assert (Hg : forall p' l0, is_nil (IIris p' l0) = false ->
+            genc E (IIris p' l0) = WCat (WOpaque (wenc_iris (olist l0))) (WList (map wraw (olist l0)))).
+  { intros p' l0 Hn. rewrite <- (enc_iris E whole_codecs). now apply (genc_iris E whole_enc_item). }
+  destruct p; [apply Hcat; apply Hg; reflexivity|]. destruct l as [l|]; [apply Hcat; apply Hg; reflexivity|].
+  now apply nilish_ok.
 Qed.
 
 (* ------------------------------------------------------------------ the whole-value theorem *)
 Theorem gob_roundtrip : forall x, wf_gob E x = true -> rec_ok E (gdec E) x.
 Proof.
-  destruct whole_parts as (_ & _ & _ & _ & Hptr & _).
+  pose proof whole_enc_item as Henc.
   apply (item_ind3 (fun x => wf_gob E x = true -> rec_ok E (gdec E) x)).
   - intros _. apply nil_ok.
-  - intros k _. destruct gdec_empty as [y [Hy Hn]]. exists y. split; [exact Hy|exact Hn].
+  - intros k _. now apply nilish_ok.
   - (* an IRI *)
     intros p s _. unfold rec_ok.
     assert (Hn : N (IIri p s) = if iri_nilish s then INil else IIri false s) by reflexivity.
     rewrite Hn. destruct (iri_nilish s) eqn:Hs.
     + assert (genc E (IIri p s) = WEmpty) as ->.
-      { unfold genc. change (is_nil (IIri p s)) with (iri_nilish s). now rewrite Hs. }
+      { apply (genc_nil E Henc). change (is_nil (IIri p s)) with (iri_nilish s). exact Hs. }
       apply gdec_empty.
     + assert (genc E (IIri p s) = WRaw s) as ->.
-      { unfold genc. change (is_nil (IIri p s)) with (iri_nilish s). rewrite Hs.
-        destruct s as [|b r]; [discriminate|]. destruct p; [rewrite Hptr|]; reflexivity. }
-      rewrite gdec_unfold. unfold dec_step. rewrite (sniff_raw E (gdec E) _ sniff_here).
+      { rewrite (genc_iri E Henc) by (change (is_nil (IIri p s)) with (iri_nilish s); exact Hs).
+        destruct s as [|b r]; [discriminate|]. reflexivity. }
+      rewrite gdec_unfold. unfold dec_step. rewrite (sniff_raw E whole_codecs (gdec E) _ sniff_here).
       eexists. split; [reflexivity|]. change (N (IIri false s)) with (if iri_nilish s then INil else IIri false s). now rewrite Hs.
   - intros p k fs IH Hwf. apply obj_rt; [exact Hwf|]. intros f v i Hin Hi Hw. eapply IH; eauto.
   - (* a nil item list *)
     intros p _. destruct p.
-    + unfold rec_ok. change (genc E (IItems true None)) with (WList []).
+    + unfold rec_ok. rewrite (genc_items_none E Henc).
       rewrite gdec_unfold. unfold dec_step. rewrite (sniff_list E (gdec E) _ sniff_here [] [] eq_refl).
       eexists. split; reflexivity.
-    + destruct gdec_empty as [y [Hy Hn]]. exists y. split; [exact Hy|exact Hn].
+    + now apply nilish_ok.
   - (* an item list *)
     intros p l IH Hwf. unfold rec_ok. rewrite genc_items.
     destruct (omapM_rec E (gdec E) l) as [l' [Hl Hm]].
@@ -646,7 +670,7 @@ Proof.
     apply gob_roundtrip. eapply wf_fval_items; eauto. }
   pose proof (kind_str k fs Hshape) as Hstr.
   destruct (struct_rt E (gdec E) (wenc E) (rdec E (gdec E)) wcodec_fits (pair_ok true)
-              (codec_pair_sound E Hleaves Hep (gdec E) nil_ok) (rdec_indep E (gdec E))
+              (codec_pair_sound E Hleaves Hep whole_codecs whole_enc_item (gdec E) nil_ok) (rdec_indep E (gdec E))
               _ _ _ Hsok fs nil_ok [] Hshape Hrec Hstr) as [out [Hout Hf]].
   { intros d Hd. left. now left. }
   unfold genc_k, enc_obj, enc_map_gen. rewrite gdec_k_unfold.
@@ -688,7 +712,7 @@ Proof.
   intros Hnil Hd Hshape Hrec Hun. destruct whole_parts as (_ & Hleaves & _ & _ & _ & Hep).
   destruct (kind_struct_ok k) as [Hsok _].
   apply (field_rt_gen E rec (wenc E) (rdec E rec) wcodec_fits (pair_ok true)
-           (codec_pair_sound E Hleaves Hep rec Hnil) _ _ _ Hsok fs Hnil [] d out Hd).
+           (codec_pair_sound E Hleaves Hep whole_codecs whole_enc_item rec Hnil) _ _ _ Hsok fs Hnil [] d out Hd).
   - split; [exact Hshape|split; [exact Hrec|]]. now apply kind_str1.
   - left. now left.
   - exact Hun.
@@ -716,7 +740,7 @@ Lemma codec_pairs_kind rec t cw cr (ov : option fval) cur :
              NV v' = match ov with Some v => NV v | None => None end.
 Proof.
   intros Hp Hshape Hrec Hnil Hcur Hitems. destruct whole_parts as (_ & Hleaves & _ & _ & _ & Hep).
-  apply (codec_pair_sound E Hleaves Hep rec Hnil t cw cr ov cur Hp Hshape Hrec Hnil Hcur).
+  apply (codec_pair_sound E Hleaves Hep whole_codecs whole_enc_item rec Hnil t cw cr ov cur Hp Hshape Hrec Hnil Hcur).
   - intros Ht Hic. apply Hitems; [exact Ht|]. intros ->. discriminate.
   - intros Hic s Hs. exfalso. specialize (Hshape _ Hs).
     destruct cw; try discriminate; destruct t; try discriminate.
@@ -724,15 +748,15 @@ Qed.
 End Whole.
 
 (* the sniffing lemma in one statement *)
-Lemma sniffing_all (E : gob_env) (rec : wire -> outcome item) (l : list gsniff) : sniff_ok l = true ->
+Lemma sniffing_all (E : gob_env) (Hc : codecs_ok E = true) (rec : wire -> outcome item) (l : list gsniff) : sniff_ok l = true ->
     (exists y, sniff_run E rec l WEmpty = Ok y /\ norm_item (ge_layout E) (ge_layout_endpoints E) y = INil) /\
     (forall b, sniff_run E rec l (WRaw b) = Ok (IIri false b)) /\
     (forall ws l', omapM rec ws = Ok l' -> sniff_run E rec l (WList ws) = Ok (IItems false (Some l'))) /\
     (forall i x ls, dec_iris i = Ok ls -> sniff_run E rec l (WCat (WOpaque i) x) = Ok (IIris false (Some ls))) /\
     (forall mm, sniff_run E rec l (WMap mm) = dec_object E rec (B "type") mm).
 Proof.
-  intros H. split; [exact (sniff_empty E rec l H)|]. split; [exact (sniff_raw E rec l H)|].
-  split; [exact (sniff_list E rec l H)|]. split; [exact (sniff_iris E rec l H)|exact (sniff_map E rec l H)].
+  intros H. split; [exact (sniff_empty E Hc rec l H)|]. split; [exact (sniff_raw E Hc rec l H)|].
+  split; [exact (sniff_list E rec l H)|]. split; [exact (sniff_iris E Hc rec l H)|exact (sniff_map E Hc rec l H)].
 Qed.
 
 Lemma decoder_fixpoint (E : gob_env) (w : wire) :
